@@ -116,6 +116,8 @@ def build_pool(cat, strip_citations=False):
     shared = {}
     pool = {}
     for rd in cat["pool"]:
+        if rd.get("derive"):
+            continue  # second pass below
         if rd.get("source"):
             src = Bio.SeqIO.read(W["kit_gb"][rd["source"]], "gb")
             rec = CircularRecord(src)
@@ -166,6 +168,12 @@ def build_pool(cat, strip_citations=False):
             for f in rec.features:
                 f.qualifiers.pop("citation", None)
         pool[rd["id"]] = rec
+    for rd in cat["pool"]:
+        d = rd.get("derive")
+        if d and d["from"] in pool:
+            # the caller derived this record from another pool record with moclo's own rotation
+            # operator; the two share their qualifier dictionaries and their annotations
+            pool[rd["id"]] = pool[d["from"]] >> d["k"]
     return pool
 
 
@@ -586,15 +594,18 @@ def _run_child(case):
             # a caller-level edit changes exactly what it says: the baseline is updated by
             # applying the same edit to a copy of the baseline record, so damage done earlier
             # by the code under test is not absorbed into the baseline
-            before = snapshot(pool[op["rec"]])
+            # records derived from the edited one by rotation share its qualifier dictionaries and
+            # annotations: the caller's edit legitimately shows through them as well
+            group = [op["rec"]] + [r_["id"] for r_ in cat["pool"] if (r_.get("derive") or {}).get("from") == op["rec"] and r_["id"] in pool]
+            before = {r_: snapshot(pool[r_]) for r_ in group}
             try:
                 apply_edit(cat, pool, op)
                 ev["outcome"] = "ok"
             except Exception as exc:
                 ev["outcome"] = {"exc": type(exc).__name__}
-            after = snapshot(pool[op["rec"]])
-            if before == baseline[op["rec"]]:
-                baseline[op["rec"]] = after
+            for r_ in group:
+                if before[r_] == baseline[r_]:
+                    baseline[r_] = snapshot(pool[r_])
         elif k == "rewrap":
             wd = env["wrap_def"].get(op["h"])
             if wd is not None:
@@ -798,9 +809,17 @@ def strip_product(prod):
 # execute
 
 
+def _resolve(cat, rd):
+    """Catalogue entry whose features/references describe this record."""
+    if rd.get("derive"):
+        return next((r for r in cat["pool"] if r["id"] == rd["derive"]["from"]), rd)
+    return rd
+
+
 def _has_citations(cat, rec_ids):
     for rd in cat["pool"]:
         if rd["id"] in rec_ids:
+            rd = _resolve(cat, rd)
             if rd.get("source"):
                 if any(rd.get("cite", {}).values()):
                     return True
@@ -810,7 +829,7 @@ def _has_citations(cat, rec_ids):
 
 
 def _has_malformed(cat, rec_ids):
-    return any(fd.get("citation_raw") for rd in cat["pool"] if rd["id"] in rec_ids for fd in rd.get("features", []))
+    return any(fd.get("citation_raw") for rd in cat["pool"] if rd["id"] in rec_ids for fd in _resolve(cat, rd).get("features", []))
 
 
 def reference(cat, edits, op, strip=False):
@@ -903,6 +922,8 @@ def execute(case):
                 probes["assemble-with-malformed-citation"] += 1
             if cit:
                 probes["assemble-with-citations"] += 1
+            if any(rd.get("derive") for rd in cat["pool"] if rd["id"] in recs):
+                probes["input-derived-by-rotation-shares-qualifiers"] += 1
             if sum(1 for rd in cat["pool"] if rd["id"] in recs and rd.get("rec_id")) >= 2:
                 probes["inputs-sharing-an-id-string"] += 1
             if any(rd.get("origin_on_fragment_start") for rd in cat["pool"] if rd["id"] in recs):
@@ -1149,7 +1170,7 @@ def gen_scenario(g, kind=None):
               "dbxrefs": ["SIM:%s" % rid] if g.random() < 0.3 else [], "features": _gen_features(g, rid, len(seq), seg, len(rl or []), rid)}
         if g.random() < 0.2:
             rd["annotations"] = {"keywords": ["kw-" + rid], "organism": "synthetic"}
-        if malformed and rd["features"] and not any(f.get("citation_raw") for r_ in pool for f in r_["features"]) and g.random() < 0.4:
+        if malformed and rd["features"] and not any(f.get("citation_raw") for r_ in pool for f in r_.get("features", [])) and g.random() < 0.4:
             f_ = g.choice(rd["features"])
             f_["citation"] = None
             f_["citation_raw"] = g.choice([["[%d]" % (len(rl or []) + 3)], ["7"], ["[x]"], ["[1]", "[%d]" % (len(rl or []) + 2)] if rl else ["[2]"]])
@@ -1210,10 +1231,18 @@ def gen_scenario(g, kind=None):
         # without id= are all called "assembly"; record ids are labels, not keys)
         for rd in g.sample([r for r in pool if r["role"] == "module"], 2) + ([pool[0]] if g.random() < 0.3 else []):
             rd["rec_id"] = "assembly"
+    twins = {}
+    if g.random() < 0.2:
+        for i in g.sample(range(n), g.randint(1, min(2, n))):
+            src = next(r for r in pool if r["id"] == "M%d" % i)
+            k = g.randrange(1, len(src["seq"]))
+            pool.append({"id": "T%d" % i, "role": "module", "derive": {"from": "M%d" % i, "op": "rshift", "k": k}})
+            wrappers.append({"h": "w:T%d" % i, "cls": mcls, "rec": "T%d" % i})
+            twins["w:M%d" % i] = "w:T%d" % i
     if g.random() < 0.25:  # second wrapper on an existing record
         i = g.randrange(n)
         wrappers.append({"h": "w2:M%d" % i, "cls": mcls, "rec": "M%d" % i})
-    return {"cutter": cutter, "refs": refs, "pool": pool, "wrappers": wrappers, "chain": ["w:M%d" % i for i in range(n)], "extras": extras, "n": n, "level2": level2}
+    return {"cutter": cutter, "refs": refs, "pool": pool, "wrappers": wrappers, "chain": ["w:M%d" % i for i in range(n)], "extras": extras, "n": n, "level2": level2, "twins": twins}
 
 
 def _cidar_cls(stem):
@@ -1276,7 +1305,7 @@ def gen_kit_scenario(g):
 def _gen_call(g, sc, i):
     """One assemble call over the scenario: mostly the complete chain, sometimes
     with the ingredients of a natural failure."""
-    chain = list(sc["chain"])
+    chain = [sc.get("twins", {}).get(m_, m_) if g.random() < 0.5 else m_ for m_ in sc["chain"]]
     mods = list(chain)
     x = g.random()
     vec = sc.get("vec", "w:V0")
@@ -1369,7 +1398,7 @@ def gen_case(spec):
     fault_rate = g.choice([0.0, 0.0, 0.15, 0.3, 0.5]) if not spec.get("fault_free") else 0.0
     enabled_exc = g.sample(EXC_KINDS, g.randint(1, len(EXC_KINDS)))
     broken = set()
-    mod_recs = [r["id"] for r in cat["pool"] if r["role"] == "module" and not r.get("source")]
+    mod_recs = [r["id"] for r in cat["pool"] if r["role"] == "module" and not r.get("source") and not r.get("derive")]
     lv2 = sc.get("level2")
     guard = 0
     while len(ops) < n_ops and guard < 40 * n_ops:
@@ -1410,10 +1439,14 @@ def gen_case(spec):
                 add(client, {"op": "edit_seq", "rec": r})
                 broken.add(r)
         elif x < 0.85:
-            r = g.choice(cat["pool"])["id"]
+            r = g.choice([r_ for r_ in cat["pool"] if not r_.get("derive")])["id"]
             add(client, {"op": "edit_annot", "rec": r, "what": g.choice(["description", "qualifier", "annotation"]), "feature": g.randrange(8), "value": "edit-%d" % len(ops)})
         elif x < 0.89:
-            cands = [(rd, fd) for rd in cat["pool"] if not rd.get("source") and rd.get("references") for fd in rd["features"] if not fd.get("citation_raw")]
+            # (records that have a rotation-derived twin keep their citations: the twin holds a shallow
+            # copy of each qualifier dictionary, so what an edit of the original means for the twin
+            # depends on whether the caller rebinds or mutates the list - not something to model)
+            has_twin = set((r_.get("derive") or {}).get("from") for r_ in cat["pool"])
+            cands = [(rd, fd) for rd in cat["pool"] if not rd.get("source") and not rd.get("derive") and rd["id"] not in has_twin and rd.get("references") for fd in rd["features"] if not fd.get("citation_raw")]
             if cands:
                 rd, fd = g.choice(cands)
                 nref = len(rd["references"])
@@ -1476,6 +1509,9 @@ def simplifiers():
                 used.add(op["rec"])
             elif op["op"] == "rewrap":
                 used.add(wd.get(op["h"]))
+        for r in cat["pool"]:
+            if r["id"] in used and r.get("derive"):
+                used.add(r["derive"]["from"])
         if any(r["id"] not in used for r in cat["pool"]):
             c2 = dict(cat, pool=[r for r in cat["pool"] if r["id"] in used], wrappers=[w for w in cat["wrappers"] if w["rec"] in used])
             yield dict(case, catalogue=c2)
@@ -1518,7 +1554,7 @@ def catalogue_summary(case):
 
 
 EXPECTED_PROBES = {
-    "C07": ["level2-product", "product-kept", "product-reused-as-input", "inputs-sharing-an-id-string", "input-origin-on-fragment-start", "unused-modules-raised-as-error", "assemble-with-duplicate-reference-in-one-record", "assemble-with-malformed-citation", "probe:target_sequence", "edit:citation", "assemble-with-citations", "refinement-after-failure", "refinement-after-injected-fault", "same-instance-twice", "missing-module", "unused-modules-warning", "stale-wrapper-used", "edit:edit_seq", "rewrap"],
+    "C07": ["input-derived-by-rotation-shares-qualifiers", "level2-product", "product-kept", "product-reused-as-input", "inputs-sharing-an-id-string", "input-origin-on-fragment-start", "unused-modules-raised-as-error", "assemble-with-duplicate-reference-in-one-record", "assemble-with-malformed-citation", "probe:target_sequence", "edit:citation", "assemble-with-citations", "refinement-after-failure", "refinement-after-injected-fault", "same-instance-twice", "missing-module", "unused-modules-warning", "stale-wrapper-used", "edit:edit_seq", "rewrap"],
     "C10": ["product-carries-citation", "product-with-cited-inputs"],
 }
 
